@@ -728,7 +728,20 @@ func c09OApply(s *c09OS, o c09Op) (msg, sig string) {
 			case 3:
 				msg, sig = bindDerivedObj(w, ro.Pluck("a"), map[string]interface{}{"a": recv.M["a"]}, o.R, what)
 			case 4:
-				msg, sig = bindDerivedObj(w, ro.Pluck(keysOf(recv.M)...), cp(recv.M), o.R, what)
+				// keys handed over as a spread slice in descending order with a duplicate: the callee sees the
+				// caller's own slice and must not reorder or otherwise modify it (arguments stay unchanged)
+				ks := keysOf(recv.M)
+				for i, j := 0, len(ks)-1; i < j; i, j = i+1, j-1 {
+					ks[i], ks[j] = ks[j], ks[i]
+				}
+				if len(ks) > 0 {
+					ks = append(ks, ks[0])
+				}
+				before := fmt.Sprint(ks)
+				msg, sig = bindDerivedObj(w, ro.Pluck(ks...), cp(recv.M), o.R, what)
+				if msg == "" && fmt.Sprint(ks) != before {
+					msg, sig = fmt.Sprintf("Pluck(keys...) modified the caller's key slice: %s -> %v", before, ks), "argument-modified/Pluck"
+				}
 			case 5:
 				msg, sig = bindDerivedObj(w, ro.Map(func(_ string, v interface{}) interface{} { return v }), cp(recv.M), o.R, what)
 			case 6:
@@ -904,6 +917,7 @@ func c09OKey(s *c09OS) string {
 }
 
 func runC09(c *ev.Ctx) {
+	defer sizeSweep(c, "C09")
 	cfg := c09Cfg{maxA: 3, maxB: 2, maxC: 2, maxLen: 5}
 	ocfg := c09Cfg{maxA: 3, maxB: 2, maxC: 2}
 	if c.Thorough() {
